@@ -21,6 +21,10 @@ run(ctx)
          * history: ONE SourceFinder instance asked the four settings in several orders on the same image (same file
            names) answers each time what a fresh finder answers, and its answers satisfy the partition clause
            (what='history-dependence' otherwise);
+         * outfile: every polarity run also writes the text catalogue through outfile= (the CLI's --out); the written
+           catalogue must be the returned one and obey the requested polarity, and passing outfile= must not change the
+           returned catalogue; the command line (`aegean --out`, default / --negative / --negative --nopositive / --nopositive)
+           is run on two corpus cases and its written catalogue judged the same way;
          * size threshold: extended sources whose island cut-out exceeds 1024 pixels with a compact source of the opposite
            sign in a corner of their bounding box (disjoint islands), both sign assignments, forced maps and file-supplied
            maps with a step;
@@ -375,7 +379,8 @@ def params_tuple(params):
     return out
 
 
-def run_finder(ctx, case, negate=False, nopositive=False, nonegative=False, record=False, tag='a', debug=False):
+def run_finder(ctx, case, negate=False, nopositive=False, nonegative=False, record=False, tag='a', debug=False,
+               outfile=False):
     sfm, _ = _mods()
     im, bkg, rms = build_case(case)
     if negate:
@@ -386,6 +391,9 @@ def run_finder(ctx, case, negate=False, nopositive=False, nonegative=False, reco
               nonegative=nonegative, max_summits=case.get('max_summits'), docov=case.get('docov', True))
     imf = write_fits(ctx, f'im_{tag}.fits', im)
     import contextlib
+    outpath = os.path.join(ctx.tmpdir(), f'cat_{tag}.txt') if outfile else None
+    if outfile:
+        kw['outfile'] = open(outpath, 'w')
     with warnings.catch_warnings(), (debug_logging() if debug else contextlib.nullcontext()):
         warnings.simplefilter('ignore')
         if case['mode'] == 'forced':
@@ -393,7 +401,96 @@ def run_finder(ctx, case, negate=False, nopositive=False, nonegative=False, reco
         else:
             srcs = sf.find_sources_in_image(imf, rmsin=write_fits(ctx, f'rms_{tag}.fits', rms),
                                             bkgin=write_fits(ctx, f'bkg_{tag}.fits', bkg), **kw)
+    sf._written = None
+    if outfile:
+        kw['outfile'].close()
+        sf._written = parse_outfile(outpath)
     return to_cat(srcs), rec, sf
+
+
+def parse_outfile(path):
+    """rows of the text catalogue written through outfile= (the CLI's --out): island, source, printed peak flux"""
+    import re
+    rows = []
+    for line in open(path):
+        m = re.match(r'^\((\d+),(\d+)\)\s+(.*)$', line)
+        if not m:
+            continue
+        t = m.group(3).split()
+        rows.append(dict(island=int(m.group(1)), source=int(m.group(2)), peak_text=t[8], peak_flux=float(t[8])))
+    return rows
+
+
+def check_written(ctx, case, which, setting, cat, written):
+    """the catalogue written through outfile= is the returned catalogue (same components in the same order, printed peak
+    within the 6 printed decimals) and obeys the polarity it was asked for"""
+    np_, nn_ = setting
+    ctx.count('outfile-catalogues-judged')
+    sig = dict(what='polarity-partition', channel='outfile')
+    c = dict(case, image=which, nopositive=np_, nonegative=nn_, outfile=True)
+    if written is None:
+        return True
+    bad = [r for r in written if (np_ and r['peak_flux'] > 0) or (nn_ and (r['peak_flux'] < 0 or r['peak_text'].startswith('-')))]
+    if bad:
+        ctx.fail('spec', c, f"the catalogue written through outfile= for (nopositive, nonegative) = {setting} holds "
+                 f"{len(bad)} components of the excluded sign, e.g. {(bad[0]['island'], bad[0]['source'])} with peak "
+                 f"{bad[0]['peak_text']}; the returned list has {len(cat)} components, the file {len(written)}",
+                 dict(sig, clause='requested-sign'))
+        return False
+    if [key(r) for r in written] != [key(r) for r in cat] or any(
+            abs(r['peak_flux'] - k['peak_flux']) > 6e-7 for r, k in zip(written, cat)):
+        ctx.fail('spec', c, f"the catalogue written through outfile= ({len(written)} rows: {[key(r) for r in written][:6]}) is not "
+                 f"the returned catalogue ({len(cat)} components: {[key(r) for r in cat][:6]})", dict(sig, clause='written-equals-returned'))
+        return False
+    return True
+
+
+def cli_case(ctx, case, fresh):
+    """the command line: `aegean image --out file` with no polarity flag (positive only, the CLI default), `--negative`
+    (both), `--negative --nopositive` (negative only) and `--nopositive` alone (nothing to find); the written catalogue is
+    judged like the returned ones: it must be the fresh finder's catalogue for that setting and obey its polarity"""
+    _mods()
+    from AegeanTools.CLI import aegean as cli
+    im, bkg, rms = build_case(case)
+    imf = write_fits(ctx, 'im_cli.fits', im)
+    base = [imf, '--cores', '1', '--seedclip', str(case.get('inner', 5)), '--floodclip', str(case.get('outer', 4))]
+    if case.get('max_summits') is not None:
+        base += ['--maxsummits', str(case['max_summits'])]
+    if not case.get('docov', True):
+        base += ['--nocov']
+    if case['mode'] == 'forced':
+        base += ['--forcerms', repr(float(rms[0, 0])), '--forcebkg', repr(float(bkg[0, 0]))]
+    else:
+        base += ['--noise', write_fits(ctx, 'rms_cli.fits', rms), '--background', write_fits(ctx, 'bkg_cli.fits', bkg)]
+    ok = True
+    root, aeg = logging.getLogger(), logging.getLogger('Aegean')
+    saved = (list(root.handlers), root.level, list(aeg.handlers), aeg.level, aeg.propagate)
+    err = np.geterr()
+    try:
+        root.handlers = [logging.NullHandler()]      # basicConfig then leaves the root logger alone
+        for flags, setting in (([], (False, True)), (['--negative'], (False, False)),
+                               (['--negative', '--nopositive'], (True, False)), (['--nopositive'], (True, True))):
+            outpath = os.path.join(ctx.tmpdir(), 'cat_cli.txt')
+            if os.path.exists(outpath):
+                os.unlink(outpath)
+            with warnings.catch_warnings():
+                warnings.simplefilter('ignore')
+                rc = cli.main(base + flags + ['--out', outpath])
+            ctx.count('cli-runs')
+            c = dict(case, cli=flags)
+            if rc not in (0, None):
+                ok = False
+                ctx.fail('spec', c, f"aegean {' '.join(flags)} --out … returned {rc}", dict(what='cli', clause='exit-status'))
+                continue
+            written = parse_outfile(outpath) if os.path.exists(outpath) else []
+            ok = check_written(ctx, c, 'cli', setting, [k for k in fresh[setting]], written) and ok
+    finally:
+        root.handlers, aeg.handlers = saved[0], saved[2]
+        root.setLevel(saved[1])
+        aeg.setLevel(saved[3])
+        aeg.propagate = saved[4]
+        np.seterr(**err)
+    return ok
 
 
 def to_cat(srcs):
@@ -457,12 +554,17 @@ def history_case(ctx, case, fresh, order, negate=False):
     ok = True
     hist = []
     for np_, nn_ in order:
-        with warnings.catch_warnings():
+        outpath = os.path.join(ctx.tmpdir(), 'cat_h.txt')      # the same output file name rewritten by every call
+        with warnings.catch_warnings(), open(outpath, 'w') as fh:
             warnings.simplefilter('ignore')
             srcs = sf.find_sources_in_image(imf, cores=1, innerclip=case.get('inner', 5), outerclip=case.get('outer', 4),
                                             nopositive=np_, nonegative=nn_, max_summits=case.get('max_summits'),
-                                            docov=case.get('docov', True), **extra)
+                                            docov=case.get('docov', True), outfile=fh, **extra)
         cat = to_cat(srcs)
+        if not check_written(ctx, dict(case, history=hist + [[np_, nn_]]), 'negative' if negate else 'image', (np_, nn_), cat,
+                             parse_outfile(outpath)):
+            ok = False
+            break
         hist.append([np_, nn_])
         got[(np_, nn_)] = cat
         want = fresh[(np_, nn_)]
@@ -851,22 +953,33 @@ HIST_COUNTER = [0]
 FORCE_ORDER = [None]     # replay: the recorded order of settings
 
 
-def image_case(ctx, case, lines, todo, stats, full_polarity, debug=False):
+def image_case(ctx, case, lines, todo, stats, full_polarity, debug=False, cli=False):
     """all runs for one image case; Spec checks immediately, correspondence lines queued"""
     cat_a, rec_a, sf_a = run_finder(ctx, case, record=True, tag='a')
     cat_b, rec_b, sf_b = run_finder(ctx, case, negate=True, record=True, tag='b')
     ok = check_negation(ctx, case, cat_a, rec_a, cat_b, rec_b, stats, img_a=np.array(sf_a.global_data.img, dtype=float))
     runs = [('image', False, cat_a)] + ([('negative', True, cat_b)] if full_polarity else [])
     for which, negate, both in runs:
-        pos, _, _ = run_finder(ctx, case, negate=negate, nonegative=True, tag='p')
-        neg, _, _ = run_finder(ctx, case, negate=negate, nopositive=True, tag='n')
-        none, _, _ = run_finder(ctx, case, negate=negate, nopositive=True, nonegative=True, tag='z')
+        pos, _, sfp = run_finder(ctx, case, negate=negate, nonegative=True, tag='p', outfile=True)
+        neg, _, sfn = run_finder(ctx, case, negate=negate, nopositive=True, tag='n', outfile=True)
+        none, _, sfz = run_finder(ctx, case, negate=negate, nopositive=True, nonegative=True, tag='z', outfile=True)
         ok = check_partition(ctx, case, both, pos, neg, none, which) and ok
+        bothw, _, sfw = run_finder(ctx, case, negate=negate, tag='w', outfile=True)
+        for setting, cat_, sf_ in (((False, True), pos, sfp), ((True, False), neg, sfn), ((True, True), none, sfz),
+                                   ((False, False), bothw, sfw)):
+            ok = check_written(ctx, case, which, setting, cat_, sf_._written) and ok
+        if not same_catalogue(bothw, both):
+            ok = False
+            ctx.fail('spec', dict(case, image=which, outfile=True), f"passing outfile= changes the returned both-polarities "
+                     f"catalogue: {len(bothw)} components instead of {len(both)}",
+                     dict(what='option-dependence', option='outfile'))
         fresh = {(False, False): both, (False, True): pos, (True, False): neg, (True, True): none}
         HIST_COUNTER[0] += 1
         ok = history_case(ctx, case, fresh, FORCE_ORDER[0] or HISTORIES[HIST_COUNTER[0] % len(HISTORIES)], negate=negate) and ok
         if debug:
             ok = debug_slice(ctx, case, fresh, negate=negate) and ok
+        if cli and not negate:
+            ok = cli_case(ctx, case, fresh) and ok
         fluxes = [c['peak_flux'] for c in both]
         for (np_, nn_, cat) in [(0, 0, both), (0, 1, pos), (1, 0, neg), (1, 1, none)]:
             idx = {key(c): i for i, c in enumerate(both)}
@@ -1162,7 +1275,7 @@ def run(ctx):
         leaf_validation(ctx, lines, todo)
     # corpus
     image_case(ctx, WITNESS_MIXED, lines, todo, stats, full_polarity=False, debug=True)
-    image_case(ctx, WITNESS_APART, lines, todo, stats, full_polarity=True, debug=True)
+    image_case(ctx, WITNESS_APART, lines, todo, stats, full_polarity=True, debug=True, cli=True)
     image_case(ctx, WITNESS_FLAT, lines, todo, stats, full_polarity=False)
     image_case(ctx, WITNESS_BLANK, lines, todo, stats, full_polarity=True, debug=True)
     for w in (WITNESS_EXT_NEG, WITNESS_EXT_POS, dict(WITNESS_EXT_NEG, mode='file-step'), dict(WITNESS_EXT_POS, mode='forced', bkg=0.1)):
@@ -1172,7 +1285,7 @@ def run(ctx):
         else:
             raise RuntimeError(f"corpus case lost its shape: {nisl} islands, largest cut-out {size} px, foreign pixel {foreign}")
         image_case(ctx, w, lines, todo, stats, full_polarity=True, debug=(w is WITNESS_EXT_NEG))
-    image_case(ctx, dict(WITNESS_BLANK, mode='file', max_summits=2), lines, todo, stats, full_polarity=False)
+    image_case(ctx, dict(WITNESS_BLANK, mode='file', max_summits=2), lines, todo, stats, full_polarity=False, cli=True)
     for c in corpus_cases():
         image_case(ctx, c, lines, todo, stats, full_polarity=False)
     injected_filter_case(ctx, lines, todo)
@@ -1219,13 +1332,14 @@ def replay(ctx, rec):
     if not rec.get('case'):
         ctx.note("this replay records a failed proof obligation / build, not an input: " + str(rec.get('detail'))[:400])
         return run(ctx)
-    case = {k: v for k, v in rec['case'].items() if k not in ('island', 'image', 'negated', 'nopositive', 'nonegative', 'history', 'debug')}
+    case = {k: v for k, v in rec['case'].items() if k not in ('island', 'image', 'negated', 'nopositive', 'nonegative', 'history', 'debug', 'outfile', 'cli')}
     lines, todo = [], []
     stats = new_stats()
     if rec['case'].get('history'):
         FORCE_ORDER[0] = [tuple(bool(b) for b in h) for h in rec['case']['history']]
     if case.get('kind') == 'image':
-        image_case(ctx, case, lines, todo, stats, full_polarity=True, debug=bool(rec['case'].get('debug')))
+        image_case(ctx, case, lines, todo, stats, full_polarity=True, debug=bool(rec['case'].get('debug')),
+                   cli=('cli' in rec['case']))
     elif case.get('kind') == 'injected-filter':
         injected_filter_case(ctx, lines, todo)
     elif case.get('kind') == 'small-island':
